@@ -151,5 +151,37 @@ package pool
 //@   modifies r.sequence
 //
 //@ func (*Message) Context() (c context.Context)
+//@   requires r != nil
+//@   ensures [get] c == r.ctx
+//
+//@ func (*Message) Observe() (v uint32, err error)
 //@   trusted
 //@   requires r != nil
+//
+//@ func (*Message) Token() (t message.Token)
+//@   trusted
+//@   requires r != nil
+//@   ensures len(t) == len(r.msg.Token) && (len(t) > 0 ==> fresh(t))
+//
+//@ func (*Message) ETag() (v []byte, err error)
+//@   trusted
+//@   requires r != nil
+//
+//@ func (*Message) HasOption(id message.OptionID) (b bool)
+//@   trusted
+//@   requires r != nil
+//
+//@ func (*Message) SetObserve(observe uint32)
+//@   trusted
+//@   requires r != nil
+//@   modifies *r
+//
+//@ func (*Message) SetPath(p string) (err error)
+//@   trusted
+//@   requires r != nil
+//@   modifies *r
+//
+//@ func (*Message) SetETag(value []byte) (err error)
+//@   trusted
+//@   requires r != nil
+//@   modifies *r
